@@ -386,6 +386,35 @@ def part_convert(ctx, shard):
                     tol = 64 * float(np.finfo(target_dtype(dt) if d.kind in "iu" else d).eps) * want**2
                     if got.shape != want.shape or np.any(np.abs(got - want) > tol * want):
                         ctx.violation(base + "|mode=wrong-value", case, want.tolist(), got.tolist())
+        # sound_speed: velocity -> temperature / energy squares the velocity
+        if d.kind in "iuf" and d.itemsize >= 4:
+            import unyt.physical_constants as _pc
+
+            kb, mh = float(_pc.kboltz.in_mks().d), float(_pc.mh.in_mks().d)
+            for vlist in ([100000, 300000, 46341], [70000, 65536, 2000000]):
+                for target in ("K", "erg"):
+                    for rname in ("to_equivalent", "to(equivalence=)", "convert_to_equivalent"):
+                        ctx.count("evaluations")
+                        q = unyt_array(np.array(vlist, dtype=dt), "cm/s")
+                        if rname == "to_equivalent":
+                            st, r, _w = run_call(lambda: q.to_equivalent(target, "sound_speed"))
+                        elif rname == "to(equivalence=)":
+                            st, r, _w = run_call(lambda: q.to(target, equivalence="sound_speed"))
+                        else:
+                            st, r, _w = run_call(lambda: q.convert_to_equivalent(target, "sound_speed"))
+                            r = q
+                        case = {"part": "convert", "dtype": dt, "route": rname, "from": "cm/s", "to": target, "form": "array", "values": [str(v) for v in vlist]}
+                        if st == "raise":
+                            ctx.count("equivalence_refused")
+                            continue
+                        ctx.decided(("sound_speed", rname, dt, target, tuple(vlist)))
+                        v_si = np.array(vlist, dtype=float) * 1e-2
+                        kT = v_si**2 * 0.6 * mh / (5.0 / 3.0)
+                        want = kT / kb if target == "K" else kT * 1e7
+                        got = np.asarray(r.d, dtype=float)
+                        tol = 256 * float(np.finfo(target_dtype(dt) if d.kind in "iu" else d).eps)
+                        if got.shape != want.shape or np.any(np.abs(got - want) > tol * np.abs(want)):
+                            ctx.violation(f"C17|equivalence-sound_speed|route={rname}|dtype={kcls(dt)}|mode=wrong-value", case, want.tolist(), got.tolist())
         for form, vals in groups:
             if d.kind == "c":
                 continue
